@@ -1267,7 +1267,7 @@ class TT():
 
             if self.__is_ttm:
 
-                if len(index)//2 - sum([i is None for i in index[:len(index)//2]]) > len(self.__N):
+                if len(index) % 2 != 0 or len(index)//2 - sum([i is None for i in index[:len(index)//2]]) > len(self.__N):
                     raise InvalidArguments('Slice size is invalid.')
                 cores_new = []
                 k = 0
